@@ -24,7 +24,7 @@ def main():
         r = sh("cd /repo && /venv/bin/python %s/demo.py" % d); res["demo_mutant_rc"] = r.returncode
         for c in checks:
             t = time.time()
-            r = sh("cd /verif && ./check %s --tier %s" % (c, tier))
+            r = sh("cd /verif && timeout 2700 ./check %s --tier %s" % (c, tier))
             lines = [l for l in r.stdout.splitlines() if l.startswith(("VIOLATION", "HARNESS-ERROR", "KNOWN"))]
             res["checks"][c] = {"rc": r.returncode, "wall": round(time.time() - t, 1), "lines": [l[:400] for l in lines[:6]]}
     finally:
